@@ -157,6 +157,72 @@ fn run_once_budget<K: Kit>(kit: &K, sc: &Scenario) -> Result<(Drv<K>, Res), Stri
     run_once_opts(kit, sc, false)
 }
 
+/// Like `exec` (planner RNG), but the planner object has had an earlier life on *another space
+/// object of the same type* - a copy of the space that is 64 times larger and as coarse as the
+/// resolution fraction allows, an obstacle-free problem, a few dozen iterations. Nothing of
+/// that life may survive the new `setup`.
+pub fn exec_after_life_elsewhere<K: Kit>(kit: &K, sc: &Scenario) -> Result<(Drv<K>, Res), String> {
+    crate::watch::set_case(sc.to_json());
+    oxmpl::verif::arm(0);
+    let build_secs = (sc.prm_samples as f64 - 0.5) * 1e-3;
+    let mut d = Drv::new(kit, &sc.params, build_secs).map_err(|r| format!("constructor failed: {}", r.short()))?;
+    d.log.borrow_mut().budget = sc.query_budget;
+    let mut spec2 = sc.problem.spec.clone();
+    for c in spec2.comps.iter_mut() {
+        if let crate::spec::CK::R { bounds: Some(bs), .. } = &mut c.kind {
+            for bnd in bs.iter_mut() {
+                *bnd = (bnd.0 * 64.0, bnd.1 * 64.0);
+            }
+        }
+        c.frac = Some(1.0);
+    }
+    let kit2 = K::new(spec2.clone());
+    if kit2.build().is_ok() {
+        let mut r = crate::util::Sm::derive(sc.params.seed.unwrap_or(0), &[4242, sc.iters]);
+        let pre = crate::world::Problem {
+            spec: spec2.clone(),
+            world: crate::world::World::default(),
+            start: crate::world::rand_state(&mut r, &spec2),
+            extra_starts: vec![],
+            goal: crate::world::GoalSpec { centre: crate::world::rand_state(&mut r, &spec2), radius: sc.problem.goal.radius, mode: crate::world::GoalMode::Centre, fail_at: None, window: None },
+            infeasible: None,
+            tags: vec![],
+        };
+        d.kit = kit2;
+        let inst = d.install(&pre, SampleMode::PlannerRng)?;
+        if d.setup(inst) == Res::Done {
+            if sc.params.kind == PKind::Prm {
+                let _ = d.construct_roadmap(true);
+            }
+            let _ = d.solve_iters(40);
+        }
+        d.kit = kit.clone();
+        let mut l = d.log.borrow_mut();
+        l.recs.clear();
+        l.n_valid = 0;
+        l.n_uniform = 0;
+        l.n_goal_sample = 0;
+    }
+    let inst = d.install(&sc.problem, SampleMode::PlannerRng)?;
+    let r = d.setup(inst);
+    if r != Res::Done {
+        return Ok((d, r));
+    }
+    if sc.params.kind == PKind::Prm {
+        {
+            let mut l = d.log.borrow_mut();
+            l.tick_sample = crate::drv::MS;
+            l.tick_valid = 0;
+        }
+        let r = d.construct_roadmap(true);
+        if r != Res::Done {
+            return Ok((d, r));
+        }
+    }
+    let r = d.solve_iters(sc.iters);
+    Ok((d, r))
+}
+
 fn run_once_opts<K: Kit>(kit: &K, sc: &Scenario, refused_first: bool) -> Result<(Drv<K>, Res), String> {
     // run_once with the scenario's query budget
     oxmpl::verif::arm(0);
